@@ -31,7 +31,6 @@ Plugins == {"go-http", "go-client", "ts-client", "ts-server", "openapiv3"}
 DevBuild == {[dev |-> "D_codec_bytes_repeated", kind |-> "build", diag |-> "type_mismatch"],
              [dev |-> "D_codec_int64_optional", kind |-> "build", diag |-> "type_mismatch"],
              [dev |-> "D_codec_ts_repeated", kind |-> "build", diag |-> "undefined"],
-             [dev |-> "D_client_query_zero_check", kind |-> "build", diag |-> "type_mismatch"],
              [dev |-> "D_unwrap_unused_import", kind |-> "build", diag |-> "unused"],
              [dev |-> "D_ts_dup_url", kind |-> "load", diag |-> "redeclared"],
              [dev |-> "D_client_helper_dup", kind |-> "build", diag |-> "redeclared"],
@@ -45,11 +44,6 @@ DevGuard(d, s, subset) ==
   CASE d = "D_codec_bytes_repeated" -> LET P(f) == f.ann.bytes # "" /\ f.card = "rep" IN AnyField(s, P)
     [] d = "D_codec_int64_optional" -> LET P(f) == f.ann.int64 = "NUMBER" /\ f.card = "opt" IN AnyField(s, P)
     [] d = "D_codec_ts_repeated"    -> LET P(f) == f.ann.ts # "" /\ f.card = "rep" IN AnyField(s, P)
-    [] d = "D_client_query_zero_check" ->
-         /\ "go-client" \in subset
-         /\ \E sv \in GenServices(s) : \E me \in Range(sv.methods) :
-               /\ me.verb \in {"GET", "DELETE"} /\ HasMsg(s, me.in)
-               /\ \E f \in Range(MsgByName(s, me.in).fields) : f.ann.query /\ (f.card \in {"opt", "rep"} \/ f.kind = "enum")
     [] d = "D_unwrap_unused_import" ->
          /\ "go-http" \in subset
          /\ LET P(f) == f.ann.unwrap /\ f.kind # "message" IN AnyField(s, P)
